@@ -173,9 +173,9 @@ type roundState struct {
 	iters    int
 	rng      *rand.Rand
 	res      *RoundResult
-	pool  *gnet.ConnectionPool
-	cb    *sched.Log
-	noise *sched.Noise
+	pool     *gnet.ConnectionPool
+	cb       *sched.Log
+	noise    *sched.Noise
 
 	poolAddr string
 	deadAddr string
